@@ -56,29 +56,31 @@ def strategy(shard):
             lim = draw(st.sampled_from(LIMITS))
             pv = st.one_of(st.sampled_from([lim, 0.0, 1.0, math.nextafter(lim, 0), math.nextafter(lim, 1), lim / 2]),
                            st.floats(0.0, 1.0), st.floats(0.0, lim))
-            cons[f"K{i}"] = {"risk_limit": lim, "ps": draw(st.lists(pv, min_size=1, max_size=4))}
+            ps = draw(st.lists(pv, min_size=1, max_size=4))
+            cons[f"K{i}"] = {"risk_limit": lim, "ps": ps, "ps2": [draw(pv) for _ in ps]}
         return {"mode": "direct", "contests": cons}
 
     return direct()
 
 
-def _judge(out, contests, returned, done, feats):
-    """the relations of the statement, given the recorded p-values."""
+def _judge(out, contests, returned, done, feats, before=None, tag=""):
+    """the relations of the statement, given the recorded p-values. `before` = confirmation status prior to this
+    computation (an assertion once confirmed stays confirmed; everything else follows the current p-values)."""
     allp = []
     for cid, con in contests.items():
         ps = {k: float(a.p_value) for k, a in con.assertions.items()}
         allp += list(ps.values())
-        out.expect(float(con.max_p) == max(ps.values()), "contest-risk!=largest-p", lambda: (cid, con.max_p, ps))
-        out.expect({k: float(v) for k, v in con.p_values.items()} == ps, "contest.p_values", lambda: (cid, con.p_values, ps))
+        out.expect(float(con.max_p) == max(ps.values()), tag + "contest-risk!=largest-p", lambda: (cid, con.max_p, ps))
+        out.expect({k: float(v) for k, v in con.p_values.items()} == ps, tag + "contest.p_values", lambda: (cid, con.p_values, ps))
         for k, a in con.assertions.items():
-            want = ps[k] <= con.risk_limit
-            out.expect(bool(a.proved) == want and bool(con.proved[k]) == want, "proved-flag", lambda: (cid, k, ps[k], con.risk_limit, a.proved))
+            want = ps[k] <= con.risk_limit or bool(before and before.get((cid, k)))
+            out.expect(bool(a.proved) == want and bool(con.proved[k]) == want, tag + "proved-flag", lambda: (cid, k, ps[k], con.risk_limit, a.proved))
             feats.add("confirmed" if want else "unconfirmed")
             if ps[k] == con.risk_limit:
                 feats.add("p==limit")
-    out.expect(float(returned) == max(allp), "audit-risk!=largest-over-contests", lambda: (returned, max(allp)))
+    out.expect(float(returned) == max(allp), tag + "audit-risk!=largest-over-contests", lambda: (returned, max(allp)))
     want_done = all(float(a.p_value) <= con.risk_limit for con in contests.values() for a in con.assertions.values())
-    out.expect(bool(done) == want_done, "completion!=all-within-own-limit",
+    out.expect(bool(done) == want_done, tag + "completion!=all-within-own-limit",
                lambda: (done, {c: (con.risk_limit, [float(a.p_value) for a in con.assertions.values()]) for c, con in contests.items()}))
     return want_done
 
@@ -131,6 +133,25 @@ def evaluate(case, out):
                 a = contests[cid].assertions[f"W v L{j}"]
                 out.expect(float(a.p_value) == p and list(map(float, a.p_history)) == [1.0, p], "recorded-p!=test-output", lambda: (cid, j, a.p_value, p))
         _judge(out, contests, ret, done, feats)
+        # a second computation on other data, without a reset in between: the records must follow the new data
+        before = {(cid, k): bool(a.proved) for cid, con in contests.items() for k, a in con.assertions.items()}
+        for cid, s in specs.items():
+            for j, p in enumerate(s["ps2"]):
+                contests[cid].assertions[f"W v L{j}"].test = NonnegMean(test=(lambda self, x, _p=p, **kw: (_p, np.array([_p]))), u=1, N=10, t=0.5)
+        try:
+            with contextlib.redirect_stdout(io.StringIO()):
+                ret2 = Assertion.set_p_values(contests, mv, None)
+                done2 = audit.summarize_status(contests)
+        except Exception as e:  # noqa
+            out.lib_exception("set_p_values(second)", e)
+            return
+        for cid, s in specs.items():
+            for j, p in enumerate(s["ps2"]):
+                a = contests[cid].assertions[f"W v L{j}"]
+                out.expect(float(a.p_value) == p and list(map(float, a.p_history)) == [p], "second:recorded-p!=test-output", lambda: (cid, j, a.p_value, p))
+        _judge(out, contests, ret2, done2, set(), before=before, tag="second:")
+        if any(before.values()):
+            feats.add("second-round-after-confirmation")
         _reset(out, contests)
         lims = {s["risk_limit"] for s in specs.values()}
         out.cls("direct", *sorted(feats))
@@ -191,6 +212,35 @@ def evaluate(case, out):
             out.expect(len(a.p_history) == len(h2) and bool(np.array_equal(np.asarray(a.p_history, float), np.asarray(h2, float), equal_nan=True)),
                        "recorded-history!=configured-test-on-own-data", lambda: (cid, k, list(a.p_history)[:6], list(h2)[:6]))
     _judge(out, contests, ret, done, feats)
+    # escalate to every card and compute again without a reset: records must be those of the new data
+    before = {(cid, k): bool(a.proved) for cid, con in contests.items() for k, a in con.assertions.items()}
+    try:
+        for cid, con in contests.items():
+            con.sample_size = sum(1 for c in cvrs if c.has_contest(cid))
+        idx2 = CVR.consistent_sampling(cvrs, contests)
+        cs2, ms2 = [cvrs[i] for i in idx2], [mvrs[i] for i in idx2]
+        with contextlib.redirect_stdout(io.StringIO()):
+            ret2 = Assertion.set_p_values(contests, ms2, cs2)
+            done2 = audit.summarize_status(contests)
+    except Exception as e:  # noqa
+        out.lib_exception("pipeline(second)", e)
+        return
+    for cid, con in contests.items():
+        for k, a in con.assertions.items():
+            try:
+                d, u = a.mvrs_to_data(ms2, cs2)
+                t = fresh[(cid, k)]
+                t.u = u
+                p2, h2 = t.test(d)
+            except Exception as e:  # noqa
+                out.lib_exception("re-run(second)", e)
+                return
+            same_p = float(a.p_value) == float(p2) or (math.isnan(float(a.p_value)) and math.isnan(float(p2)))
+            out.expect(same_p and len(a.p_history) == len(h2), "second:recorded-p!=configured-test-on-current-data",
+                       lambda: (cid, k, a.p_value, p2, len(a.p_history), len(h2)))
+    _judge(out, contests, ret2, done2, set(), before=before, tag="second:")
+    if any(before.values()):
+        feats.add("second-round-after-confirmation")
     _reset(out, contests)
     lims = {con.risk_limit for con in contests.values()}
     out.cls("pipeline", *sorted(feats))
